@@ -19,7 +19,11 @@ for line in res.splitlines():
         det[parts['check']]={'tier':parts.get('tier'),'exit':int(parts['exit']),'violations':int(parts['violations']),'signatures':line.split(' :: ',1)[1].strip() if ' :: ' in line else ''}
 if not m.get('detected_by') and 'checks_run_before_strengthening' not in m:
     m['checks_run_before_strengthening']=m.get('checks_run',{})
-cr=m.get('checks_run',{}); cr.update(det); m['checks_run']=cr
+cr=m.get('checks_run',{})
+for k,v in det.items():
+    if v['exit'] in (0,1): cr[k]=v   # a run that could not be made (build failure, interrupt, inconclusive) records nothing
+    else: print('NOT RECORDED',k,v)
+m['checks_run']=cr
 m['detected_by']=sorted(k for k,v in cr.items() if v['exit']==1)
 json.dump(m,open(dst,'w'),indent=1)
 print('updated',dst,'detected_by',m['detected_by'])
